@@ -40,6 +40,10 @@ CLAIMED = {
    text='The same seeded input BAM (dense libraries, molecules straddling tile edges, sites on tile boundaries, unplaced and invalid fragments) is tagged serially (S), with --multiprocess contig-per-process (P) and twice through the region-tiling API (T: bp_per_segment 30..5000, bp_per_job, fragment_size >= longest fragment, sometimes > segment) under a SimPool of width 1..8 and seeded completion orders. Oracle: multiset of full canonical records (flags, mate fields, every tag except mi/ix) identical across S/P/T; each molecule written by exactly one job, in T the job whose bin contains its site. Sampled inputs/tilings/orders: evidence, not proof.',
    note='Trusts SimPool and the capture of the CLI-built iterator arguments for the tiling API; margins shorter than a fragment are outside the precondition and not generated.',
    tech='deterministic simulation: serial vs simulated-pool executions (contig jobs and region tilings) under seeded completion orders, record-level equivalence and per-job ownership oracle'),
+ 'C06': dict(engine='molecules', cat='exploration', design='5 C06',
+   text='One seeded library with known truth feeds (api) the real MoleculeIterator for Hamming 0/1/2 x radius 0/>0 x pooling 0/1 x max-fragments cap x NLA/CHIC/plain, on input that may carry stale duplicate bits and RC/af tags, and (chain) histories of 1..3 tagger lifetimes where each tagged BAM is the next input, switching single/--multiprocess between lifetimes, with the command-line Hamming distance at its default or 0. Oracle: soundness of every molecule, exactness vs truth classes where the statement pins the partition (k=0, or no two UMIs of a site within distance 2; cap-aware), exactly one non-duplicate fragment per molecule with RC=0, RC 0..n-1, af=n, TF>=n consistent, overflow pseudo-molecules single; same in every lifetime. Sampled libraries/histories: evidence, not proof.',
+   note='Trusts the truth generator and the BAM-level grouping by the per-run molecule identifier of the lifetime that wrote it (mi / (contig, ix)).',
+   tech='deterministic simulation: multi-lifetime re-tagging histories (tagged BAM as durable state) plus direct iterator runs against generator ground truth'),
 }
 NA = {
  'C02': 'Pure function of (strategy layout, read pair): fixed slices of two strings; no stream state, schedule, clock, fault or history for a simulator to choose.',
